@@ -1,8 +1,8 @@
 (* SessOpen.v -- C10: the pending-open slot is a one-shot; the opener's outcome is the verdict of the first
    decisive event.  C02_stamp: ids handed out by open_stream are pairwise distinct below 2^32 opens. *)
 From Coq Require Import List NArith ZArith Lia Bool.
-From AnyTLS Require Import Bytes Cmd Generated GeneratedFacts Frame Reader Session BytesFacts FrameProofs
-  SessTable SessHandle SessRecv.
+From AnyTLS Require Import Bytes Cmd Generated FactsCore FactsSession Frame Reader Session BytesFacts FrameProofs
+  SessTable SessHandle SessRecv SessPipe.
 Import ListNotations.
 Import Sess.
 Open Scope N_scope.
@@ -351,3 +351,40 @@ Proof.
   apply NoDup_map_inj_on; [|apply seq_NoDup].
   intros x y Hx Hy. apply in_seq in Hx, Hy. unfold u32_of. intros E. lia.
 Qed.
+
+(* ---------------------------------------------------------------- statements used by Props/C02.v *)
+Lemma content c st b s fs :
+  cfg_ok c -> dead st = false -> lookup b (tbl st) = Some s ->
+  Forall no_alert fs -> Forall (fun f => ends c b f = false) fs ->
+  exists s', lookup b (tbl (fst (handle_all c st fs))) = Some s' /\
+    rd s' = rd_pushes (rd s) (pushes b fs) /\ sclosed s' = sclosed s /\
+    only b (gone (fst (handle_all c st fs))) = only b (gone st).
+Proof.
+  intros Hok Hd Hl Hna Hne.
+  destruct (handle_all_view c b fs st Hok Hna Hd) as (Hv & _).
+  destruct (vrun_content c b fs s (only b (gone st)) Hne) as (s1 & Hvr & Hrd & Hsc & _).
+  unfold view in Hv at 2. rewrite Hl, Hvr in Hv. unfold view in Hv. injection Hv as H1 H2.
+  exists s1. auto.
+Qed.
+
+Lemma stamp sid d n st :
+  Forall (fun f => fcmd f = Push /\ fsid f = sid /\ lenN (fdata f) <= max_payload) (data_frames sid d) /\
+  (s_closed st = false -> next_id st < 4294967296 -> N.of_nat n <= 4294967296 ->
+   NoDup (snd (open_many n st))).
+Proof. split; [apply SessPipe.data_frames_ok | apply open_ids_distinct]. Qed.
+
+Lemma fin_own_id_only c st sid d :
+  wf_sess st ->
+  let st' := fst (handle c st (mk Fin sid d)) in
+  lookup sid (tbl st') = None /\
+  (forall b, b <> sid -> lookup b (tbl st') = lookup b (tbl st) /\ only b (gone st') = only b (gone st)).
+Proof.
+  intros Hwf. cbv zeta.
+  destruct (fin_effect c st sid d Hwf) as (_ & H1 & H2 & _ & H4 & _).
+  split; [exact H1|]. intros b Hb. split; [apply H2 | apply H4]; exact Hb.
+Qed.
+
+Lemma no_second_outcome c sid es st o es1 reg alive es2 :
+  snd (crun c sid (st, Done o) es) = Done o /\
+  (expect sid reg alive es1 = Done o -> expect sid reg alive (es1 ++ es2) = Done o).
+Proof. split; [apply crun_done | apply expect_done_stable]. Qed.
